@@ -243,6 +243,8 @@ pub fn net_cfg(cell: &Cell, p: &TraceParams, topo: Topo, menu: Menu) -> NetCfg {
         fixed_dport: matches!(cell.ports, Ports::FixedDest | Ports::FixedBoth).then_some(FIXED_DPORT),
         reroute: None,
         tcp_rtt_ns: None,
+        // (the virtual clock starts at 1 s)
+        deadline_ns: Some(1_000 * MS + 2 * (p.rounds as u64) * ((p.max_round + 2 * p.read_timeout).as_nanos() as u64 + 600 * if p.read_timeout < Duration::from_millis(1) { 1_000 } else { MS }) + 1_000 * MS),
     }
 }
 
@@ -298,6 +300,8 @@ pub fn run_trace(cell: &Cell, p: &TraceParams, net: NetCfg, chooser: Chooser) ->
     };
     let snapshot = mc::catch(|| tracer.snapshot()).ok();
     let world = simnet::take();
+    // a run cut off at its virtual-time horizon would never have ended
+    let result = if world.runaway { Err(format!("NEVER-ENDS: the run was still waiting for input at twice the time its {} rounds can take (cut off: {:?})", p.rounds, result)) } else { result };
     RunOutcome {
         world,
         result,
